@@ -5,8 +5,8 @@ rc=0
 for p in $(python3 -c "import json;print(' '.join(c['property_id'] for c in json.load(open('MANIFEST.json'))['checks']))") "$@"; do
   out=$(./bin/govc check -prop "$p" -no-evidence 2>&1); st=$?
   line=$(echo "$out" | grep "^property $p" | tail -1)
-  extra=$(echo "$out" | grep -c "^VIOLATION\|^BROKEN\|not counted")
+  extra=$(echo "$out" | grep -c "^VIOLATION\|^BROKEN\|^UNDECIDED\|not counted")
   echo "$p exit=$st $line"
-  if [ "$st" != 0 ] || [ "$extra" != 0 ]; then echo "$out" | grep "^VIOLATION\|^BROKEN\|not counted" | cut -c1-300; rc=1; fi
+  if [ "$st" != 0 ] || [ "$extra" != 0 ]; then echo "$out" | grep "^VIOLATION\|^BROKEN\|^UNDECIDED\|not counted" | cut -c1-300; rc=1; fi
 done
 exit $rc
